@@ -829,7 +829,9 @@ func (c *c16ctx) ftsearch(maxDocs int) {
 	c.section = "ftsearch"
 	keys := []string{"doc:a", "b", "1", "2.5"}
 	scores := []string{"1", "0.5", "0"}
-	fieldSets := [][]c16pair{{}, {{"t", "x"}}, {{"t", ""}, {"n", "1"}}, {{"", "v"}}}
+	// the last field set stands for a NULL content element (the document expired or was deleted while the query ran)
+	c16nullFields := []c16pair{{"\x00null", ""}}
+	fieldSets := [][]c16pair{{}, {{"t", "x"}}, {{"t", ""}, {"n", "1"}}, {{"", "v"}}, c16nullFields}
 	type opt struct{ withScores, noContent bool }
 	for oi, o := range []opt{{false, false}, {true, false}, {false, true}, {true, true}} {
 		var docAlpha []c16ftdoc
@@ -868,9 +870,15 @@ func (c *c16ctx) ftsearch(maxDocs int) {
 				var recs []c16v
 				want := []FtSearchDoc{}
 				cls := "plain"
+				hasNull := false
 				for _, i := range idx {
 					d := docAlpha[i]
+					isNull := len(d.Fields) == 1 && d.Fields[0].K == "\x00null"
 					w := FtSearchDoc{Key: d.Key, Doc: c16docMap(d.Fields)}
+					if isNull {
+						w.Doc = map[string]string{}
+						hasNull = true
+					}
 					r2 = append(r2, c16str(d.Key))
 					rec := []c16v{c16str("id"), c16str(d.Key)}
 					if o.withScores {
@@ -878,7 +886,10 @@ func (c *c16ctx) ftsearch(maxDocs int) {
 						r2 = append(r2, c16str(d.Score))
 						rec = append(rec, c16str("score"), c16dbl(d.Score))
 					}
-					if !o.noContent {
+					if !o.noContent && isNull {
+						r2 = append(r2, c16null())
+						rec = append(rec, c16str("extra_attributes"), c16map())
+					} else if !o.noContent {
 						r2 = append(r2, c16arr(c16flat(d.Fields)...))
 						rec = append(rec, c16str("extra_attributes"), c16map(c16flat(d.Fields)...))
 					}
@@ -908,8 +919,13 @@ func (c *c16ctx) ftsearch(maxDocs int) {
 				if cl == "plain" && len(idx) == 0 {
 					cl = "no documents"
 				}
+				if hasNull && cl == "plain" {
+					cl = "null content element"
+				}
 				c.expect("AsFtSearch", "RESP2 flat "+oname, cl, c16arr(r2...), w, w, false, get)
-				c.expect("AsFtSearch", "RESP3 map "+oname, cl, r3, w, w, false, get)
+				if !hasNull {
+					c.expect("AsFtSearch", "RESP3 map "+oname, cl, r3, w, w, false, get)
+				}
 			}
 		})
 		_ = oi
